@@ -213,6 +213,9 @@ def run_task(spec, complete_at=None, cancel_at=None):
 
             async def main():
                 loop = asyncio.get_running_loop()
+                # the moment the worker starts the task; a client whose executor never starts its schedule handle explicitly (but, say,
+                # lets the schedule generator do it at the first iteration, i.e. after the ramp-up wait) still started the task here
+                result["launched"] = (clock.now, clock.perf_counter())
                 if complete_at is not None:
                     loop.call_at(complete_at, complete.set)
                 if cancel_at is not None:
@@ -233,7 +236,9 @@ def run_task(spec, complete_at=None, cancel_at=None):
     result["requests"] = w.request_log
     result["wires"] = w.wire_log
     result["handed"] = sink.get("handed", {})
-    result["starts"] = sink.get("start", {})
+    result["starts"] = dict(sink.get("start", {}))
+    for a in allocs:
+        result["starts"].setdefault(a.task.client_index_in_task, result.get("launched"))
     result["param_calls"] = w.param_calls
     result["task"] = task
     result["clients_closed"] = all(c.closed for c in w.created_clients)
